@@ -449,6 +449,8 @@ pub enum MidiOp {
     Raw(Vec<u8>),
     /// the same complete channel message n times in a row
     Burst { kind: u8, d1: u8, d2: u8, n: u16 },
+    /// n times: note-on(d1), note-off(d1) (the same key tapped again and again)
+    AltBurst { d1: u8, n: u16 },
     SetPriority(Prio),
     SetRetrigger(bool),
     PollRising,
@@ -507,6 +509,17 @@ pub fn encode(op: &MidiOp, channel: u8, running: &mut Option<u8>, out: &mut Vec<
         MidiOp::Raw(b) => {
             out.extend_from_slice(b);
             *running = None; // unknown: force explicit status afterwards
+        }
+        MidiOp::AltBurst { d1, n } => {
+            for i in 0..*n {
+                out.push(0x90 | channel);
+                out.push(*d1 & 0x7F);
+                out.push(1 + (i % 100) as u8);
+                out.push(0x80 | channel);
+                out.push(*d1 & 0x7F);
+                out.push(0);
+            }
+            *running = Some(0x80 | channel);
         }
         MidiOp::Burst { kind, d1, d2, n } => {
             let k = 0x8 + (*kind % 7);
